@@ -74,4 +74,10 @@ def t_pair_space(run, tree):
     qs.check_unit_pair_space(run, tree, kinds=("cmp",))
 
 
-THOROUGH_RULES = [t_pair_space]
+def t_history_space(run, tree):
+    run.rule("C07.T2", "thorough: the complete product comparison x mutator x the same comparison (all six comparison operators, four in-place operators, buffer edits, unit "
+             "re-assignment; operands a, b, c, Quantity, 0, 2.0, self)", "D7 fold of the whole Array class over operation sequences", "", floor=6)
+    qs.check_array_history_space(run, tree, "thorough", family="compare")
+
+
+THOROUGH_RULES = [t_pair_space, t_history_space]
